@@ -9,11 +9,12 @@ VARIABLES g, h, accAt
 vars == <<g, h, accAt>>
 
 S1 == "1:a:s"  D1 == "1:b:s"  D2 == "1:c:s"
-Env == [svc |-> [x \in {S1, D1, D2} |-> "available"], h |-> h + 1, bxh |-> "1", unordered |-> {}]
+Env == [svc |-> [x \in {S1, D1, D2} |-> "available"], h |-> h + 1, bxh |-> "1", unordered |-> {}, relay |-> <<>>, rule |-> [c \in {"a", "b", "c"} |-> [bound |-> "happy", unbinding |-> "", cert |-> ""]]]
 Id(s, d, i) == <<s, d, i>>
 Tx(typ, d, i, T, gid) == [k |-> "ibtp", typ |-> typ, src |-> S1, dst |-> d, idx |-> i, T |-> T, proofok |-> TRUE, id |-> Id(S1, d, i),
                           srcLocal |-> TRUE, dstLocal |-> TRUE, srcChain |-> "a", dstChain |-> IF d = D1 THEN "b" ELSE "c",
-                          gid |-> gid, gcount |-> IF gid = "" THEN 0 ELSE 2]
+                          gid |-> gid, gcount |-> IF gid = "" THEN 0 ELSE 2,
+                          srcBxh |-> "1", dstBxh |-> "1", hashok |-> TRUE, ms |-> FALSE, sigs |-> <<>>, notice |-> "", art |-> [kind |-> "none"]]
 Reqs  == {Tx("REQ", D1, i, T, "") : i \in 1..MaxIdx, T \in Timeouts}
 GReqs == {Tx("REQ", d, 1, T, "G1") : d \in {D1, D2}, T \in Timeouts}
 Rcpts == {Tx(ty, d, i, 0, "") : ty \in {"OK", "FAIL", "RB"}, d \in {D1, D2}, i \in 1..MaxIdx}
